@@ -245,18 +245,10 @@ def select_case(E, c, bound, node, short):
         if not reqs:
             return case
         t = z3.And(*[E.spec_bool(r, env) for r in reqs]) if reqs else z3.BoolVal(True)
-        E.solver.push()
-        E.solver.add(z3.Not(t))
-        E.solver.set('timeout', 2000)
-        r1 = E.solver.check()
-        E.solver.pop()
-        if r1 == z3.unsat:
+        d = E.decide(t)
+        if d is True:
             return case
-        E.solver.push()
-        E.solver.add(t)
-        r2 = E.solver.check()
-        E.solver.pop()
-        if r2 == z3.unsat:
+        if d is False:
             continue
         undecided.append((case, t))
     if not undecided:
